@@ -13,7 +13,7 @@
    index immediately".) *)
 From Coq Require Import List NArith Bool.
 Import ListNotations.
-From Oras Require Import Model.GraphMem.
+From Oras Require Import Base.Prelude Generated.GC07 Model.GraphMem.
 
 Record ia_state := mkIA {
   ia_pending : list node; ia_inflight : list node; ia_tracker : list node; ia_g : graph }.
@@ -57,3 +57,12 @@ Fixpoint ia_run content sok (st : ia_state) (trace : list ia_ev) : option ia_sta
 Definition ia_done (st : ia_state) : bool :=
   match ia_pending st, ia_inflight st with [], [] => true | _, _ => false end.
 Definition ia_init (g : graph) (r : node) : ia_state := mkIA [r] [] [] g.
+
+(* commit before index, index before the successors' tasks, the root task started last in
+   the source: the call order of IndexAll's task function, re-read on every run *)
+Definition indexall_task_order : bool :=
+  match calls_indexAll with
+  | [c; i; g1; g2] => str_eqb c (b "tracker.TryCommit") && str_eqb i (b "m.index")
+                      && str_eqb g1 (b "syncutil.Go") && str_eqb g2 (b "syncutil.Go")
+  | _ => false
+  end.
